@@ -682,6 +682,8 @@ class Evaluator:
             return BoundMethod(base, attr)
         if base is TOP:
             return TOP
+        if isinstance(base, BoundMethod):  # attribute of an unmodelled attribute of an opaque object
+            return Obj("opaque", f"{getattr(base.recv, 'name', '?')}.{base.name}.{attr}", (), {"__of__": base.recv})
         if isinstance(base, ExtRef):
             return ExtRef(base.path + "." + attr)
         if isinstance(base, ClassRef):
@@ -741,6 +743,8 @@ class Evaluator:
             return base.with_eff(("getitem", k))
         if base is TOP:
             return TOP
+        if isinstance(base, BoundMethod):
+            return Obj("opaque", f"{getattr(base.recv, 'name', '?')}.{base.name}[]", (), {"__of__": base.recv})
         if isinstance(base, ExtRef):
             return base  # typing subscripts
         raise Unmodelled(f"subscript of {base!r}", node)
